@@ -15,13 +15,15 @@ Clause → theorem (property text of C20 in /verif/properties.jsonl)
 | … or a bearer token that this instance's login issued for a configured user name and password (the role configured for that user) | `authenticates_iff`, `issued_genuine`, `session_identity_is_configured` (under the AEAD assumption `Unforgeable`), `issued_token_authenticates` |
 | … or arrives over the Unix socket from a system user mapped in the configuration (that role) | `authenticates_iff` (`PeerAccepts`, with the fall-through explicit), `authenticates_tcp`, `unix_identity_ignores_gid`, `unix_identity_is_mapped_user` |
 | login succeeds exactly for a configured user with the matching password whose role permits login | `login_iff`, `login_identity` (full strength), `login_denied_iff`, `login_trichotomy` |
-| every other credential – unknown user, wrong password                         | `login_unknown_user`, `login_wrong_password` |
+| every other credential – unknown user, wrong password                         | `login_unknown_user`, `login_wrong_password`, `junk_hash_never_logs_in` (an entry whose stored `password_hash` is not the hex text of a hash – locked `"!"`, empty, truncated, one character too long, upper-case hex, non-hex – admits **no** password) |
+| the admin token *verbatim*; what "the bearer token of a request" is            | `get_bearer_token_spec` (header parsing of httpclient.rs), `near_miss_same_iff` (of the neighbourhood of a credential – prefixes, extensions, one changed character, other case, white space around it, nothing – exactly the members that only add white space are the same credential), `near_miss_admin_token`, `near_miss_rejected` |
+| both provider configurations                                                   | `authenticates_iff` (config-file provider primary, admin token as the legacy arm), `authenticates_iff_admin_token` (admin-token provider primary), `genuine_iff` |
 | … truncated, bit-flipped or re-encoded token, token issued under another instance's key – authenticates nobody | `mutated_token_rejected`, `mutations_rejected`, `not_issued_rejected`, `cache_key_is_whole_token`, `injective_key_sound` / `noninjective_key_unsound` (a cache keyed by less than the whole token) |
 | … and is refused on every route that requires a permission                    | `refused_everywhere`, `mutated_token_refused_everywhere`, `request_decision` |
 | only as the configured identity (title)                                       | `actor_is_identity`, `login_identity`, `session_identity_is_configured` |
 | quantifier: every bearer string derived by mutation, arbitrary strings        | the theorems above range over every `Wire` |
 | quantifier: every name/password pair incl. case, white space, normalisation   | `login_iff`, `login_identity` for an arbitrary normalisation function |
-| quantifier: every user/role configuration, both transports                    | every theorem is for an arbitrary `Config`; `Transport` is a parameter |
+| quantifier: every user/role configuration, both transports                    | every theorem is for an arbitrary `Config` – the stored `password_hash` of an entry is an arbitrary string (`StoredHash`: the text of a hash term, or `junk`); `Transport` is a parameter |
 
 Session lifetime (not demanded by the property text; stated as the code is):
 | expiry      | `session_status_spec`; the config-file provider issues sessions without expiry and never asks: `config_file_sessions_do_not_expire`, `issued_token_authenticates` (after every later history) |
@@ -29,6 +31,7 @@ Session lifetime (not demanded by the property text; stated as the code is):
 | the cache   | part of the model (`SessState.cache`); `cache_sound_invariant`, `authenticate_state_irrelevant`: a cached session is only ever what the token itself decodes to, so it cannot outlive the token's own validity, whatever is swept, logged out or restarted |
 -/
 import KrillModel.Http.AuthLemmas
+import KrillModel.Http.BearerLemmas
 import KrillModel.Http.AuthPinned
 import KrillModel.Http.Lemmas
 import KrillModel.Props.C13
@@ -580,7 +583,7 @@ theorem login_iff (norm : String → String) (cfg : Config) (st : SessState)
     (basic : Option (String × String)) (id role : String) (tok : Wire) :
     (loginConfigFile norm cfg st basic).1 = .ok id role tok ↔
       ∃ raw pw u r, basic = some (raw, pw) ∧ id = norm raw ∧
-        cfg.users.lookup id = some u ∧ u.hash = ⟨norm pw, id, u.salt⟩ ∧ role = u.role ∧
+        cfg.users.lookup id = some u ∧ u.hash = .term ⟨norm pw, id, u.salt⟩ ∧ role = u.role ∧
         cfg.roles.lookup u.role = some r ∧ r.isAllowed .Login none = true ∧
         tok = .sealed true cfg.key st.nonce (.session id role) :=
   login_ok_iff norm cfg st basic id role tok
@@ -592,7 +595,7 @@ are related by case, white space or Unicode normalisation. -/
 theorem login_identity (norm : String → String) (cfg : Config) (st : SessState)
     (raw pw id role : String) (tok : Wire)
     (h : (loginConfigFile norm cfg st (some (raw, pw))).1 = .ok id role tok) :
-    ∃ e, cfg.users.lookup id = some e ∧ e.hash = ⟨norm pw, id, e.salt⟩ ∧ role = e.role := by
+    ∃ e, cfg.users.lookup id = some e ∧ e.hash = .term ⟨norm pw, id, e.salt⟩ ∧ role = e.role := by
   obtain ⟨raw', pw', u, r, hb, _, hu, hh, hrole, _, _, _⟩ :=
     (login_iff norm cfg st _ id role tok).mp h
   simp only [Option.some.injEq, Prod.mk.injEq] at hb
@@ -610,12 +613,12 @@ theorem login_confuses_equivalent_names :
     let adm : Role := Role.simple Permission.all
     let cfg : Config :=
       { authType := .configFile, adminToken := "secret",
-        users := [("Ａlice", ⟨⟨"pw-of-wide-alice", "Alice", 1⟩, 1, "ro"⟩),
-                  ("Alice", ⟨⟨"pw-of-alice", "Alice", 2⟩, 2, "adm"⟩)],
+        users := [("Ａlice", ⟨.term ⟨"pw-of-wide-alice", "Alice", 1⟩, 1, "ro"⟩),
+                  ("Alice", ⟨.term ⟨"pw-of-alice", "Alice", 2⟩, 2, "adm"⟩)],
         roles := [("ro", ro), ("adm", adm)], unixUsers := [], key := 7, testbed := false }
     (Pinned.loginTwoLookups norm cfg {} (some ("Ａlice", "pw-of-wide-alice"))).1 =
       .ok "Alice" "adm" (.sealed true 7 0 (.session "Alice" "adm")) ∧
-    (¬ ∃ e, cfg.users.lookup "Alice" = some e ∧ e.hash = ⟨"pw-of-wide-alice", "Alice", e.salt⟩) ∧
+    (¬ ∃ e, cfg.users.lookup "Alice" = some e ∧ e.hash = .term ⟨"pw-of-wide-alice", "Alice", e.salt⟩) ∧
     (loginConfigFile norm cfg {} (some ("Ａlice", "pw-of-wide-alice"))).1 = .invalid ∧
     (loginConfigFile norm cfg {} (some ("Ａlice", "pw-of-alice"))).1 =
       .ok "Alice" "adm" (.sealed true 7 0 (.session "Alice" "adm")) := by
@@ -627,7 +630,7 @@ theorem login_denied_iff (norm : String → String) (cfg : Config) (st : SessSta
     (basic : Option (String × String)) :
     (loginConfigFile norm cfg st basic).1 = .denied ↔
       ∃ raw pw u r, basic = some (raw, pw) ∧ cfg.users.lookup (norm raw) = some u ∧
-        u.hash = ⟨norm pw, norm raw, u.salt⟩ ∧
+        u.hash = .term ⟨norm pw, norm raw, u.salt⟩ ∧
         cfg.roles.lookup u.role = some r ∧ r.isAllowed .Login none = false := by
   constructor
   · intro h
@@ -663,10 +666,34 @@ theorem login_unknown_user (norm : String → String) (cfg : Config) (st : SessS
 
 theorem login_wrong_password (norm : String → String) (cfg : Config) (st : SessState)
     (raw pw : String) (u : UserEntry) (h : cfg.users.lookup (norm raw) = some u)
-    (hw : u.hash ≠ ⟨norm pw, norm raw, u.salt⟩) :
+    (hw : u.hash ≠ .term ⟨norm pw, norm raw, u.salt⟩) :
     loginConfigFile norm cfg st (some (raw, pw)) = (.invalid, st) := by
-  have : (⟨norm pw, norm raw, u.salt⟩ : HashTerm) ≠ u.hash := fun e => hw e.symm
+  have : StoredHash.term ⟨norm pw, norm raw, u.salt⟩ ≠ u.hash := fun e => hw e.symm
   simp [loginConfigFile, h, this]
+
+/-- **A stored `password_hash` that is not the text of a hash admits no password.**  For every
+configuration, every state, every name and password: if the entry found under the trimmed and
+normalised name holds a `junk` string – a locked account (`"!"`), an empty string, a hash that lost or
+gained a character, upper-case hex, anything that is not the lower-case hex of a 32-byte scrypt
+output – the login is answered 401 and nothing changes, whatever the password (the one whose hash
+was mangled, another one, the empty one). -/
+theorem junk_hash_never_logs_in (norm : String → String) (cfg : Config) (st : SessState)
+    (raw pw : String) (u : UserEntry) (s : String) (h : cfg.users.lookup (norm raw) = some u)
+    (hj : u.hash = .junk s) :
+    loginConfigFile norm cfg st (some (raw, pw)) = (.invalid, st) :=
+  login_wrong_password norm cfg st raw pw u h (by rw [hj]; exact fun e => by cases e)
+
+/-- … equivalently: whoever logs in has a stored hash that is the text of a hash term – the term of
+the password sent. -/
+theorem login_needs_wellformed_hash (norm : String → String) (cfg : Config) (st : SessState)
+    (raw pw id role : String) (tok : Wire)
+    (h : (loginConfigFile norm cfg st (some (raw, pw))).1 = .ok id role tok) :
+    ∃ e, cfg.users.lookup (norm raw) = some e ∧ ∀ s, e.hash ≠ .junk s := by
+  obtain ⟨raw', pw', u, r, hb, hid, hu, hh, _⟩ := (login_iff norm cfg st _ id role tok).mp h
+  simp only [Option.some.injEq, Prod.mk.injEq] at hb
+  obtain ⟨rfl, rfl⟩ := hb
+  subst hid
+  exact ⟨u, hu, fun s hs => by rw [hs] at hh; cases hh⟩
 
 /-- Login answers 200 with a token, 403, or 401 – and 401 exactly when neither of the two
 characterisations (`login_iff`, `login_denied_iff`) applies. -/
@@ -679,6 +706,132 @@ theorem login_trichotomy (norm : String → String) (cfg : Config) (st : SessSta
   | ok id role tok => exact Or.inl ⟨id, role, tok, rfl⟩
   | denied => exact Or.inr (Or.inl rfl)
   | invalid => exact Or.inr (Or.inr rfl)
+
+/-! ## Both provider configurations; what "the bearer token of a request" is -/
+
+/-- With the **admin-token provider as the primary one** (no legacy arm, no sessions): a request
+authenticates iff its bearer string is the admin token verbatim (admin) – or no bearer string of the
+request is accepted, the transport is the Unix socket and the peer is mapped. -/
+theorem authenticates_iff_admin_token (cfg : Config) (hat : cfg.authType = .adminToken)
+    (st : SessState) (h : Header) (t : Transport) (id : String) (role : Role) :
+    (authenticate cfg st h t).1 = .ok id role ↔
+      (h = .bearer (.text cfg.adminToken) ∧ id = adminTokenUser ∧ role = adminRole) ∨
+      (h ≠ .bearer (.text cfg.adminToken) ∧ PeerAccepts cfg t id role) := by
+  rw [authenticate_fst]
+  unfold bearerStage legacyProvider primaryProvider
+  simp only [hat, AuthRes.isOk, Bool.false_eq_true, if_false]
+  cases h with
+  | absent =>
+    simp only [adminProvider, Bool.false_eq_true, if_false, unixProvider_ok_iff,
+      reduceCtorEq, false_and, false_or, ne_eq, not_false_eq_true, true_and]
+  | bearer w =>
+    by_cases hw : w = .text cfg.adminToken
+    · subst hw
+      simp only [adminProvider, if_true, AuthRes.ok.injEq, true_and, ne_eq,
+        not_true_eq_false, false_and, or_false]
+      exact ⟨fun ⟨a, b⟩ => ⟨a.symm, b.symm⟩, fun ⟨a, b⟩ => ⟨a.symm, b.symm⟩⟩
+    · simp only [adminProvider, hw, if_false, Bool.false_eq_true, unixProvider_ok_iff,
+        Header.bearer.injEq, false_and, false_or, ne_eq, not_false_eq_true, true_and]
+
+/-- The genuine bearer strings of `KM.Http.Genuine` (used by `KM.Props.C13.wrong_credentials_refused`)
+are exactly the strings that are a credential of somebody: under the config-file provider those of
+`BearerAccepts`, under the admin-token provider the admin token alone. -/
+theorem genuine_iff (cfg : Config) (w : Wire) :
+    Genuine cfg w ↔
+      match cfg.authType with
+      | .configFile => ∃ id role, BearerAccepts cfg w id role
+      | .adminToken => w = .text cfg.adminToken := by
+  unfold Genuine BearerAccepts
+  cases cfg.authType with
+  | adminToken => simp
+  | configFile =>
+    simp only [true_and]
+    constructor
+    · intro h
+      rcases h with h | ⟨n, u, r, role, hw, hr⟩
+      · exact ⟨_, _, Or.inl ⟨h, rfl, rfl⟩⟩
+      · exact ⟨u, role, Or.inr ⟨by rw [hw]; simp, n, u, r, hw, rfl, hr⟩⟩
+    · intro ⟨id, role, h⟩
+      rcases h with ⟨h, _⟩ | ⟨_, n, u, r, hw, _, hr⟩
+      · exact Or.inl h
+      · exact Or.inr ⟨n, u, r, role, hw, hr⟩
+
+/-- **`get_bearer_token`** (httpclient.rs), for every text that can follow `Authorization: Bearer `
+on the wire: the credential presented is that text with the white space (blanks, tabs) around it
+removed – and none at all when nothing else is left (the HTTP parser strips the trailing blank of
+`Bearer `, the prefix no longer matches).  Nothing but surrounding white space is ever removed. -/
+theorem get_bearer_token_spec (x : List Char) (hx : x.all isHeaderChar = true) :
+    getBearerToken (some (bearerPrefix ++ x)) = (if trim x = [] then none else some (trim x)) ∧
+    (∀ a m b, x = a ++ m ++ b → a.all isWs = true → b.all isWs = true → Core m → trim x = m) ∧
+    getBearerToken none = none :=
+  ⟨getBearerToken_bearer x hx, fun a m b hxe ha hb hm => by rw [hxe]; exact trim_decomp a m b ha hb hm,
+    rfl⟩
+
+/-- **The neighbourhood of a credential.**  For every credential text `t` (not empty, no white space
+at its ends) and every near miss of it – a proper non-empty prefix, `t` followed by more text, `t`
+with one character replaced, `t` in the other letter case, `t` with white space in front of and
+behind it, nothing at all – the credential krill reads from the header `Bearer <near miss>` is `t`
+**iff** the near miss only added white space around `t` (`NearMiss.same`: padding, or an extension
+that is all blanks).  Every other member is a *different* credential (or none). -/
+theorem near_miss_same_iff (t : List Char) (ht : IsToken t) (v : NearMiss)
+    (hv : v.applies t = true) :
+    getBearerToken (some (bearerPrefix ++ v.apply t)) = some t ↔ v.same = true := by
+  rw [getBearerToken_bearer _ (nearMiss_all_headerChar t ht v hv), ← nearMiss_trim_eq_iff t ht v hv]
+  by_cases h0 : trim (v.apply t) = []
+  · simp only [h0, if_true, reduceCtorEq, false_iff]
+    exact fun h => ht.1 h.symm
+  · simp [h0]
+
+/-- For the admin token: the admin-token provider accepts the header of a near miss iff it is the
+same credential. -/
+theorem near_miss_admin_token (cfg : Config) (ht : IsToken cfg.adminToken.toList) (v : NearMiss)
+    (hv : v.applies cfg.adminToken.toList = true) :
+    adminProvider cfg (v.header cfg.adminToken.toList) = .ok adminTokenUser adminRole ↔
+      v.same = true := by
+  rw [← near_miss_same_iff _ ht v hv]
+  unfold NearMiss.header headerOfText
+  cases hg : getBearerToken (some (bearerPrefix ++ v.apply cfg.adminToken.toList)) with
+  | none => simp [adminProvider]
+  | some t' =>
+    simp only [adminProvider, Option.some.injEq]
+    by_cases h : t' = cfg.adminToken.toList
+    · simp [h, String.ofList_toList]
+    · have : String.ofList t' ≠ cfg.adminToken := by
+        intro e; apply h; rw [← e, String.toList_ofList]
+      simp [h, this]
+
+/-- **A near miss of the admin token authenticates nobody** – under either provider configuration,
+in every state, on both transports: the chain answers what the Unix-socket arm answers (the mapped
+peer – who could have sent no token –, an error for an unmapped peer, nothing on TCP), exactly as
+for a request without credentials.  Members that are the same credential are the admin. -/
+theorem near_miss_rejected (cfg : Config) (st : SessState) (hs : CacheSound cfg.key st)
+    (ht : IsToken cfg.adminToken.toList) (v : NearMiss)
+    (hv : v.applies cfg.adminToken.toList = true) (tr : Transport) :
+    (v.same = false →
+      (authenticate cfg st (v.header cfg.adminToken.toList) tr).1 = unixProvider cfg tr) ∧
+    (v.same = true → v.header cfg.adminToken.toList = .bearer (.text cfg.adminToken)) := by
+  have hiff := near_miss_same_iff _ ht v hv
+  unfold NearMiss.header headerOfText
+  cases hg : getBearerToken (some (bearerPrefix ++ v.apply cfg.adminToken.toList)) with
+  | none =>
+    rw [hg] at hiff
+    refine ⟨fun _ => ?_, fun h => ?_⟩
+    · rw [authenticate_fst_arms, tokenArms_absent]; rfl
+    · exact absurd (hiff.mpr h) (by simp)
+  | some t' =>
+    rw [hg] at hiff
+    simp only [Option.some.injEq] at hiff
+    refine ⟨fun hns => ?_, fun h => ?_⟩
+    · have hne : t' ≠ cfg.adminToken.toList := fun e => by
+        rw [hiff.mp e] at hns; cases hns
+      have hng : ¬ Genuine cfg (.text (String.ofList t')) := by
+        intro hgen
+        rcases hgen with hgen | ⟨_, n, u, r, role, hgen, _⟩
+        · simp only [Wire.text.injEq] at hgen
+          apply hne; rw [← hgen, String.toList_ofList]
+        · cases hgen
+      exact (not_genuine_as_absent cfg st hs _ hng tr).1
+    · rw [hiff.mpr h]; simp only [String.ofList_toList]
 
 /-! ## `request_decision`: credentials to decision -/
 
@@ -741,7 +894,11 @@ def exRole : Role := Role.simple [.Login, .CaRead]
 
 def exCfg : Config :=
   { authType := .configFile, adminToken := "secret",
-    users := [("alice", ⟨⟨"pw", "alice", 1⟩, 1, "r1"⟩), ("bob", ⟨⟨"pw2", "bob", 2⟩, 2, "nologin"⟩)],
+    users := [("alice", ⟨.term ⟨"pw", "alice", 1⟩, 1, "r1"⟩), ("bob", ⟨.term ⟨"pw2", "bob", 2⟩, 2, "nologin"⟩),
+      -- a locked account, a hash that lost its last character, the upper-case hex of carol's real hash,
+      -- and an entry holding alice's hash (and salt)
+      ("locked", ⟨.junk "!", 3, "r1"⟩), ("cut", ⟨.junk "trunc", 4, "r1"⟩),
+      ("carol-upper", ⟨.junk "upper", 5, "r1"⟩), ("mallory", ⟨.term ⟨"pw", "alice", 1⟩, 1, "r1"⟩)],
     roles := [("r1", exRole), ("nologin", Role.simple [.CaRead])],
     unixUsers := [("root", "r1")], key := 7, testbed := false }
 
@@ -795,5 +952,47 @@ example :
     sessionStatus 100 (some 60) 161 = some .expired ∧
     sessionStatus 100 (some 60) 99 = none := by
   decide
+
+/-- `junk_hash_never_logs_in` is not vacuous, and it matters which string is stored: `locked` (`"!"`),
+`cut` (a truncated hash) and `carol-upper` (upper-case hex) admit no password at all – not the one
+whose hash was mangled, not the empty one, not the stored string itself; `mallory`, whose entry holds
+*alice's* hash and salt, cannot log in with alice's password (the user name is part of what is
+hashed); alice still can. -/
+example :
+    (["locked", "cut", "carol-upper"].all fun n =>
+      ["pw", "", "!", "trunc", "upper", "pw-carol"].all fun p =>
+        (loginConfigFile id exCfg {} (some (n, p))).1 == .invalid) = true ∧
+    (loginConfigFile id exCfg {} (some ("mallory", "pw"))).1 = .invalid ∧
+    (loginConfigFile id exCfg {} (some ("alice", "pw"))).1 =
+      .ok "alice" "r1" (.sealed true 7 0 (.session "alice" "r1")) := by
+  decide
+
+/-- The neighbourhood of the admin token `secret` after krill's header parsing: `Bearer   secret`,
+`Bearer secret  ` and tabs around it present `secret`; every proper prefix, `secret2`,
+`secret and then some`, `Secret`/`SECRET`, `secrez` and `Xecret` present something else; `Bearer `
+alone presents nothing; `bearer secret` / `Token secret` are not read as bearer tokens. -/
+example :
+    let tok := fun (s : String) => getBearerToken (some s.toList)
+    tok "Bearer secret" = some "secret".toList ∧
+    tok "Bearer    secret" = some "secret".toList ∧
+    tok "Bearer secret  " = some "secret".toList ∧
+    tok "  Bearer \tsecret\t " = some "secret".toList ∧
+    tok "Bearer s" = some "s".toList ∧
+    tok "Bearer secre" = some "secre".toList ∧
+    tok "Bearer secret2" = some "secret2".toList ∧
+    tok "Bearer secret and then some" = some "secret and then some".toList ∧
+    tok "Bearer SECRET" = some "SECRET".toList ∧
+    tok "Bearer " = none ∧ tok "Bearer    " = none ∧ tok "Bearer" = none ∧
+    tok "bearer secret" = none ∧ tok "Token secret" = none ∧ tok "Bearersecret" = none ∧
+    tok "Bearer secr\u00e9t" = none ∧
+    IsToken "secret".toList ∧
+    ([NearMiss.pre 1, .pre 5, .ext ['2'], .ext " and then some".toList, .chg 0 'X', .chg 5 'z',
+      .swapCase, .empty].all fun v => v.applies "secret".toList && !v.same) = true ∧
+    ([NearMiss.pad [' ', ' '] [], .pad [] [' '], .pad ['\t'] ['\t', ' '], .ext [' ', ' ']].all fun v =>
+      v.applies "secret".toList && v.same) = true := by
+  refine ⟨by decide, by decide, by decide, by decide, by decide, by decide, by decide, by decide,
+    by decide, by decide, by decide, by decide, by decide, by decide, by decide, by decide, ?_,
+    by decide, by decide⟩
+  refine ⟨by decide, ?_, ?_, by decide⟩ <;> intro c hc <;> simp at hc <;> subst hc <;> decide
 
 end KM.Props.C20
